@@ -31,6 +31,9 @@ type pop struct {
 type catchSpec struct {
 	Gate bool `json:"gate,omitempty"` // the rendezvous blocks until a "release" operation
 	Err  bool `json:"err,omitempty"`
+	// MaxGate: the collector's question for the maximum (asked once per Collect, before the rendezvous)
+	// blocks until a "release" operation - a collector parked between its checks and the rendezvous
+	MaxGate bool `json:"maxgate,omitempty"`
 }
 
 type pcase struct {
@@ -52,9 +55,29 @@ type scriptTongue struct {
 	gates    []chan struct{} // gates of rendezvous in flight
 	inCatch  int
 	clock    *int64
+	maxCalls int
 }
 
-func (s *scriptTongue) GetMax() int { return s.c.Max }
+func (s *scriptTongue) GetMax() int {
+	s.mu.Lock()
+	n := s.maxCalls
+	s.maxCalls++
+	if n == 0 {
+		s.mu.Unlock()
+		return s.c.Max // the constructor's question (size of the hand-over channel)
+	}
+	spec := s.c.Catches[(n-1)%len(s.c.Catches)]
+	var gate chan struct{}
+	if spec.MaxGate {
+		gate = make(chan struct{})
+		s.gates = append(s.gates, gate)
+	}
+	s.mu.Unlock()
+	if gate != nil {
+		<-gate
+	}
+	return s.c.Max
+}
 
 func (s *scriptTongue) Catch() (*WebRTCPeer, error) {
 	s.mu.Lock()
@@ -347,8 +370,9 @@ func TestVerifC15Peers(t *testing.T) {
 		nc := rapid.IntRange(1, 4).Draw(rt, "ncatch")
 		for i := 0; i < nc; i++ {
 			c.Catches = append(c.Catches, catchSpec{
-				Gate: rapid.Bool().Draw(rt, "gate"),
-				Err:  rapid.IntRange(0, 3).Draw(rt, "err") == 0,
+				Gate:    rapid.Bool().Draw(rt, "gate"),
+				Err:     rapid.IntRange(0, 3).Draw(rt, "err") == 0,
+				MaxGate: rapid.IntRange(0, 3).Draw(rt, "maxgate") == 0,
 			})
 		}
 		n := rapid.IntRange(1, 30).Draw(rt, "nops")
